@@ -408,7 +408,9 @@ func VReplayDsm(task engine.SeqTask) (res engine.SeqResult) {
 	res.Key = h.Canon(append(append([]string{}, p.IDs...), "e4"), vLiveNames(h), strings.Join(liveDesc, ",")+"|dead:"+strings.Join(deadKeys, ",")+"|"+strings.Join(hs, ","))
 	// a restart is meant to change nothing: mark the state right behind it, or the search would never go on from there
 	if n := len(task.Hist); n > 0 {
-		var lo struct{ K string `json:"k"` }
+		var lo struct {
+			K string `json:"k"`
+		}
 		_ = json.Unmarshal(task.Hist[n-1], &lo)
 		if lo.K == "restart" {
 			res.Key += "|just-restarted"
@@ -704,7 +706,9 @@ func VReplayCat(task engine.SeqTask) (res engine.SeqResult) {
 	res.Key = h.Canon(append(append([]string{}, vIDs...), "e4"), vLiveNames(h), strings.Join(parts, ";")+fmt.Sprintf("|dead%d", dead))
 	// a restart is meant to change nothing: mark the state right behind it, or the search would never go on from there
 	if n := len(task.Hist); n > 0 {
-		var lo struct{ K string `json:"k"` }
+		var lo struct {
+			K string `json:"k"`
+		}
 		_ = json.Unmarshal(task.Hist[n-1], &lo)
 		if lo.K == "restart" {
 			res.Key += "|just-restarted"
